@@ -590,7 +590,7 @@ fn misbehave(cb: u8) {
         1 => panic!("{}", String::from("handler panicked (String payload)")),
         2 => panic!("handler panicked (&'static str payload)"),
         3 => std::panic::panic_any(42i32),
-        4 => std::thread::sleep(std::time::Duration::from_millis(3)),
+        4 => std::thread::sleep(std::time::Duration::from_millis(1)),
         _ => {}
     }
 }
@@ -1604,7 +1604,7 @@ impl Gen {
         let reserved = if self.rng.chance(1, 4) { self.rng.boundary(32) } else { 0 };
         let reqec = if self.rng.chance(1, 4) { self.rng.boundary(32) } else { 0 };
         let trfmt = self.rng.below(15);
-        let cb = match self.rng.below(16) { 0 => 1, 1 => 2, 2 => 3, 3 | 4 => 4, _ => 0 };
+        let cb = match self.rng.below(32) { 0 | 1 => 1, 2 | 3 => 2, 4 | 5 => 3, 6 => 4, _ => 0 };
         let srv = self.rng.below(16);
         let decoys = *self.rng.pick(&[0u64, 0, 1, 2, 3, 3]);
         self.push(
@@ -1707,7 +1707,7 @@ fn generate(args: &Args) -> Vec<String> {
     for p in ["", "/", "/~01", "/~10", "/a~1b/~0~1", "//", "/a/"] {
         g.push("tok", &shex(p));
     }
-    let (n_scen, n_pairs, n_struct, n_twin_rounds) = if thorough { (20000, 300000, 400000, 500) } else { (500, 8000, 12000, 10) };
+    let (n_scen, n_pairs, n_struct, n_twin_rounds) = if thorough { (15000, 200000, 300000, 250) } else { (500, 8000, 12000, 10) };
     for _ in 0..n_scen {
         g.scenario();
     }
